@@ -1,4 +1,5 @@
-"""C02 harness (stage 1): the validator ends with a verdict on any byte string.
+"""C02 harness (stage 1; stage 2 = tools/harness/C02_headers.py, hooked in below): the validator ends with a verdict on
+any byte string.
 
 (i)  structure-preserving mutations are covered by C01's correspondence (same model, Props/C02.v is
      the no-crash theorem without `units_valid`); here a slice of them is re-run through the model to
@@ -219,6 +220,14 @@ def run(ctx):
         "bitstream_viewer_hint work; declared sizes above the caps abort the case as out of scope. Non-trivial = mutated stream "
         "that was not accepted and not out of scope.")
     ctx.trusted.append("C02 harness caps declared sizes by wrapping assert_level_constraint / sequence_header in-process: %r" % (CAPS,))
+    # ==== STAGE 2 (added by the C02 stage-2 engineer; self-contained in tools/harness/C02_headers.py) ===========
+    # Model/Headers.v against the real decoder functions inside a data unit, over bits.  Runs BEFORE install_caps()
+    # (its own temporary guards are removed again on exit) and with the unmodified LEVEL_CONSTRAINTS as well as the
+    # permissive table installed by C01.impl().
+    import C02_headers
+    C02_headers.run_headers(ctx, impl().get("orig_level_constraints"))
+    ctx.extra["rule"] += "  ||  " + ctx.extra.pop("headers_rule", "")
+    # ==== end of the stage-2 section ================================================================================
     # ---- (i) model correspondence on structure-preserving mutations -------------------------------
     n_struct = ctx.pick(400, 6000)
     cases = []
@@ -291,6 +300,9 @@ def replay(ctx, data):
     impl()
     if "units" in inp:
         return C01.replay(ctx, data)
+    if inp.get("headers"):   # stage 2 (tools/harness/C02_headers.py)
+        import C02_headers
+        return C02_headers.replay_headers(ctx, data)
     install_caps()
     raw = bytes(bytearray.fromhex(inp["bytes_hex"]))
     kind, detail = run_validator(raw)
